@@ -193,6 +193,43 @@ def split_block_heads(lines, counts):
     return out
 
 
+def _negate(cond):
+    """textual negation of a simple condition (used by T19 only; falls back to `!(cond)`)"""
+    c = cond.strip()
+    if re.match(r'^!\s*[\w.\[\]]+(\(\))?$', c) or re.match(r'^!\([^()]*\)$', c):
+        return c[1:].strip()
+    if '&&' in c or '||' in c:
+        return '!(%s)' % c
+    for a, b in ((' == ', ' != '), (' != ', ' == '), (' >= ', ' < '), (' <= ', ' > '), (' > ', ' <= '), (' < ', ' >= ')):
+        if c.count(a) == 1 and not any(c.count(x) for x, _ in ((' == ', 0), (' != ', 0), (' >= ', 0), (' <= ', 0), (' > ', 0), (' < ', 0)) if x != a):
+            return c.replace(a, b)
+    if re.match(r'^[\w.\[\]]+(\([^()]*\))?(\.[\w]+(\([^()]*\))?)*$', c):
+        return '!' + c
+    return '!(%s)' % c
+
+
+def normalise_loop_break(lines, counts):
+    """T19: `loop { if C { break; } BODY }` (the first statement of the loop is the only exit test) -> `while !C { BODY }`: the
+    two are the same loop; the normal form lets invariants written for either spelling attach."""
+    out = []
+    i = 0
+    n = len(lines)
+    while i < n:
+        t = lines[i][0]
+        if re.match(r'^\s*loop$', t) and i + 4 < n and re.match(r'^\s*\{$', lines[i + 1][0]):
+            ind = t[:len(t) - len(t.lstrip())]
+            m = re.match(r'^\s*if (.+) \{$', lines[i + 2][0])
+            if m and re.match(r'^\s*break;$', lines[i + 3][0]) and re.match(r'^\s*\}$', lines[i + 4][0]):
+                out.append((ind + 'while ' + _negate(m.group(1)), lines[i][1]))
+                out.append((ind + '{', lines[i + 1][1]))
+                counts.bump('T19_loop_break_to_while')
+                i += 5
+                continue
+        out.append(lines[i])
+        i += 1
+    return out
+
+
 _FOR = re.compile(r'^(\s*)for (.+?) in (.+)$')
 
 
@@ -337,6 +374,7 @@ def transform(text, counts, select=None):
     lines = rewrite_asserts(lines, counts)
     lines = rewrite_unchecked(lines, counts)
     lines = split_block_heads(lines, counts)
+    lines = normalise_loop_break(lines, counts)
     lines = rewrite_for_loops(lines, counts)
     lines = name_capacity_args(lines, counts)
     lines = widen_visibility(lines, counts)
